@@ -73,8 +73,14 @@ def run(tier, res, force_search=False):
     for k in range(n_re):
         nprs = np.random.RandomState(rng.randint(0, 2**31 - 1))
         y0 = rng.randint(1960, 2080)
-        dO = probes.dates_from(datetime.date(y0 - 20, rng.randint(1, 12), rng.randint(1, 28)), rng.randint(500, 900))
-        dH = probes.dates_from(datetime.date(y0 - 20, 1, 1), rng.randint(500, 900))
+        if k % 2 == 0:
+            dO = probes.dates_from(datetime.date(y0 - 20, rng.randint(1, 12), rng.randint(1, 28)), rng.randint(500, 900))
+            dH = probes.dates_from(datetime.date(y0 - 20, 1, 1), rng.randint(500, 900))
+        else:
+            # reference periods of equal length starting on the same calendar day in different years (leap day elsewhere)
+            n_ref, m0, d0 = rng.randint(700, 1100), rng.randint(1, 12), rng.randint(1, 28)
+            dO = probes.dates_from(datetime.date(y0 - 20, m0, d0), n_ref)
+            dH = probes.dates_from(datetime.date(y0 - 20 - rng.randint(1, 3), m0, d0), n_ref)
         dF = probes.dates_from(datetime.date(y0, rng.randint(1, 12), rng.randint(1, 28)), rng.randint(400, 900))
         S = rng.choice([7, 15, 31, rng.randint(5, 45)])
         L = S + rng.choice([0, 10, 30])
@@ -124,79 +130,116 @@ def run(tier, res, force_search=False):
     if mismatches:
         res.tie_broken.append(f"correspondence DrvWindows/reassembly: {len(mismatches)} mismatches, first: {mismatches[0]}")
 
-    # ---- the property's oracle on the real code: perturb everything outside the neighbourhood of a target day
-    n_or = 10 if tier == "quick" else 80
+    # ---- the property's oracle on the real code: perturb everything outside the neighbourhood of a target day.
+    # Systematic over debiaser x scenario: calendars of the reference series (unequal lengths / equal lengths starting on the
+    # same calendar day of different years, so that the leap day sits elsewhere), and instances whose window settings were
+    # changed by attribute assignment after construction (only the step, only the length, both) and are applied through `apply`.
+    reps = 1 if tier == "quick" else 6
     if force_search or not lean_ok or mismatches:
-        n_or *= 3
-    for k in range(n_or):
-        nprs = np.random.RandomState(rng.randint(0, 2**31 - 1))
-        y0 = rng.randint(1960, 2080)
-        leap = rng.random() < 0.5
-        if leap:
-            y0 -= y0 % 4
-        dO = probes.dates_from(datetime.date(y0 - 20, 1, 1), 365 * 2 + rng.randint(0, 40))
-        dH = probes.dates_from(datetime.date(y0 - 24, 1, 1), 365 * 2 + rng.randint(0, 40))
-        dF = probes.dates_from(datetime.date(y0, 1, 1) + datetime.timedelta(days=rng.choice([0, rng.randint(0, 364)])), 365 * 2 + rng.randint(0, 40))
-        S = rng.choice([1, 5, 15, 31])
-        L = S + rng.choice([0, 4, 16, 30])
-        Ln, Sn = L + (L % 2 == 0), S + (S % 2 == 0)
-        k_near = Ln // 2 + Sn // 2
-        debs = probes.window_debiasers(L, S)
-        names = ["LinearScaling", "DeltaChange", "QuantileMapping", "CDFt"] if S == 1 else list(debs)
-        name = names[k % len(names)]
-        o, h, f = probes.tas_like(nprs, dO, 283, 3), probes.tas_like(nprs, dH, 285, 4), probes.tas_like(nprs, dF, 287, 4)
-        with warnings.catch_warnings():
-            warnings.simplefilter("ignore")
-            doyO, doyH, doyF = day_of_year(dO), day_of_year(dH), day_of_year(dF)
-        corrected_doy = doyO if name == "DeltaChange" else doyF
-        # target days: prefer year-boundary and leap-day targets
-        cand = [i for i, d in enumerate(corrected_doy) if d in (1, 2, 365, 366, 59, 60)]
-        ti = rng.choice(cand) if cand and rng.random() < 0.5 else rng.randrange(corrected_doy.size)
-        t = int(corrected_doy[ti])
-        kind = rng.choice(["x3", "+1e6", "nan"])
-        case = {"what": "locality/" + name, "L": L, "S": S, "target_index": ti, "target_doy": t, "perturbation": kind,
-                "startF": str(dF[0]), "leap": leap, "seed": C.seed()}
-
-        def perturb(x, doys):
-            far = ~near_mask(k_near, t, doys)
-            y = x.copy()
-            if kind == "x3":
-                y[far] = y[far] * 3
-            elif kind == "+1e6":
-                y[far] = y[far] + 1e6
-            else:
-                y[far] = np.nan
-            return y, int(far.sum())
-
-        o2, n1 = perturb(o, doyO)
-        h2, n2 = perturb(h, doyH)
-        f2, n3 = perturb(f, doyF)
-        with warnings.catch_warnings():
-            warnings.simplefilter("ignore")
-            try:
-                a = debs[name]().apply_location(o, h, f, dO, dH, dF)
-                b = debs[name]().apply_location(o2, h2, f2, dO, dH, dF)
-            except Exception as ex:  # noqa: BLE001
-                # NaN far away can make an unrelated window's fit raise: that is not a locality statement
-                if kind == "nan":
-                    continue
-                problems.append((f"{name}: {type(ex).__name__}: {str(ex)[:100]}", case))
-                continue
-        res.count(("loc", name, L, S, t, kind), n1 + n2 + n3 > 0, sample=case if k < 4 else None)
-        if not (a[ti] == b[ti] and np.isfinite(a[ti])):
-            problems.append((f"{name}: value on day {t} changed ({a[ti]!r} -> {b[ti]!r}) although only data more than L//2+S//2={k_near} days away was changed", case))
-        # the window really reaches L//2 days: LinearScaling with S = 1 must react to a change at distance exactly L//2
-        if name == "LinearScaling" and Sn == 1 and Ln >= 3:
-            at = near_mask(Ln // 2, t, doyH) & ~near_mask(Ln // 2 - 1, t, doyH)
-            if at.any():
-                h3 = h.copy()
-                h3[at] += 10.0
+        reps *= 3
+    all_names = list(probes.window_debiasers(31, 1))
+    scenarios = ["unequal", "equal-shifted", "reconf-step", "reconf-length", "reconf-both"]
+    for rep in range(reps):
+        for name in all_names:
+            for scen in scenarios:
+                nprs = np.random.RandomState(rng.randint(0, 2**31 - 1))
+                y0 = rng.randint(1960, 2080)
+                leap = rng.random() < 0.5
+                if leap:
+                    y0 -= y0 % 4
+                if scen == "equal-shifted":
+                    n_ref = 365 * 3 + rng.randint(0, 40)
+                    dO = probes.dates_from(datetime.date(y0 - 20, 1, 1), n_ref)
+                    dH = probes.dates_from(datetime.date(y0 - 20 - rng.randint(1, 3), 1, 1), n_ref)
+                else:
+                    dO = probes.dates_from(datetime.date(y0 - 20, 1, 1), 365 * 2 + rng.randint(0, 40))
+                    dH = probes.dates_from(datetime.date(y0 - 24, 1, 1), 365 * 2 + rng.randint(0, 40))
+                dF = probes.dates_from(datetime.date(y0, 1, 1) + datetime.timedelta(days=rng.choice([0, rng.randint(0, 364)])), 365 * 2 + rng.randint(0, 40))
+                cheap = name in ("LinearScaling", "DeltaChange", "QuantileMapping")
+                S = rng.choice([1, 5, 15, 31] if cheap else [5, 15, 31])
+                L = S + rng.choice([0, 4, 16, 30])
+                if scen == "equal-shifted":
+                    S = 1  # a window displaced by a single day is then always outside the allowed neighbourhood
+                    L = rng.choice([5, 9, 21, 31])
+                if scen == "reconf-step":
+                    S = rng.choice([1, 5] if cheap else [5])
+                    L = S + rng.choice([16, 30])  # room for a larger step at construction
+                Ln, Sn = L + (L % 2 == 0), S + (S % 2 == 0)
+                k_near = Ln // 2 + Sn // 2
+                o, h, f = probes.tas_like(nprs, dO, 283, 3), probes.tas_like(nprs, dH, 285, 4), probes.tas_like(nprs, dF, 287, 4)
                 with warnings.catch_warnings():
                     warnings.simplefilter("ignore")
-                    c3 = debs[name]().apply_location(o, h3, f, dO, dH, dF)
-                res.count(("reach", L, t), True)
-                if c3[ti] == a[ti]:
-                    problems.append((f"LinearScaling: changing cm_hist exactly {Ln // 2} days from day {t} did not change the result: the window is narrower than documented", case))
+                    doyO, doyH, doyF = day_of_year(dO), day_of_year(dH), day_of_year(dF)
+                corrected_doy = doyO if name == "DeltaChange" else doyF
+                cand = [i for i, d in enumerate(corrected_doy) if d in (1, 2, 365, 366, 59, 60)]
+                ti = rng.choice(cand) if cand and rng.random() < 0.5 else rng.randrange(corrected_doy.size)
+                t = int(corrected_doy[ti])
+                kind = rng.choice(["x3", "+1e6", "nan"])
+                case = {"what": "locality/" + name, "scenario": scen, "L": L, "S": S, "target_index": ti, "target_doy": t, "perturbation": kind,
+                        "startO": str(dO[0]), "startH": str(dH[0]), "startF": str(dF[0]), "nO": int(dO.size), "nH": int(dH.size), "nF": int(dF.size),
+                        "leap": leap, "seed": C.seed()}
+                if scen.startswith("reconf"):
+                    L0 = L if scen == "reconf-step" else L + rng.choice([10, 30])
+                    # a stale (larger) step is what would widen the neighbourhood: prefer a larger step at construction
+                    S0 = S if scen == "reconf-length" else rng.choice([x for x in (5, 15, 31) if S < x <= L0] or [x for x in (1, 5, 15) if x != S and x <= L0] or [S])
+                    case.update({"constructed_with": [L0, S0]})
+
+                def run_deb(oo, hh, ff):
+                    if not scen.startswith("reconf"):
+                        return probes.window_debiasers(L, S)[name]().apply_location(oo, hh, ff, dO, dH, dF)
+                    d = probes.window_debiasers(L0, S0)[name]()
+                    d.running_window_length, d.running_window_step_length = L, S
+                    return d.apply(oo[:, None, None], hh[:, None, None], ff[:, None, None], progressbar=False,
+                                   time_obs=dO, time_cm_hist=dH, time_cm_future=dF)[:, 0, 0]
+
+                def perturb(x, doys):
+                    far = ~near_mask(k_near, t, doys)
+                    y = x.copy()
+                    if kind == "x3":
+                        y[far] = y[far] * 3
+                    elif kind == "+1e6":
+                        y[far] = y[far] + 1e6
+                    else:
+                        y[far] = np.nan
+                    return y, int(far.sum())
+
+                a = b = None
+                for attempt in range(2):
+                    o2, n1 = perturb(o, doyO)
+                    h2, n2 = perturb(h, doyH)
+                    f2, n3 = perturb(f, doyF)
+                    with warnings.catch_warnings():
+                        warnings.simplefilter("ignore")
+                        try:
+                            a = run_deb(o, h, f)
+                            b = run_deb(o2, h2, f2)
+                            break
+                        except Exception as ex:  # noqa: BLE001
+                            if kind == "nan":
+                                # NaN far away can make an unrelated window's fit raise: not a locality statement; use a finite perturbation
+                                kind = case["perturbation"] = "+1e6"
+                                a = b = None
+                                continue
+                            problems.append((f"{name}: {type(ex).__name__}: {str(ex)[:100]}", case))
+                            a = b = None
+                            break
+                if a is None or b is None:
+                    continue
+                res.count(("loc", name, scen, L, S, t, kind), n1 + n2 + n3 > 0, sample=case if len(res.cov["samples"]) < 6 else None)
+                if not (a[ti] == b[ti] and np.isfinite(a[ti])):
+                    problems.append((f"{name} [{scen}]: value on day {t} changed ({a[ti]!r} -> {b[ti]!r}) although only data more than L//2+S//2={k_near} days away was changed", case))
+                # the window really reaches L//2 days: LinearScaling with S = 1 must react to a change at distance exactly L//2
+                if name == "LinearScaling" and Sn == 1 and Ln >= 3:
+                    at = near_mask(Ln // 2, t, doyH) & ~near_mask(Ln // 2 - 1, t, doyH)
+                    if at.any():
+                        h3 = h.copy()
+                        h3[at] += 10.0
+                        with warnings.catch_warnings():
+                            warnings.simplefilter("ignore")
+                            c3 = run_deb(o, h3, f)
+                        res.count(("reach", L, t), True)
+                        if c3[ti] == a[ti]:
+                            problems.append((f"LinearScaling [{scen}]: changing cm_hist exactly {Ln // 2} days from day {t} did not change the result: the window is narrower than documented", case))
 
     seen = set()
     for p, case in problems:
